@@ -205,13 +205,41 @@ def rule_tokens(ctx):
                     strs = [x[1] for x in walk(c[3]) if isinstance(x, tuple) and x[0] == "const" and isinstance(x[1], str)]
                     kwi.append((idxs[0] if idxs else None, strs[0] if strs else None))
             where = ctxs[-1] if ctxs else ("fen-slice" if hi is not None else None)
-            rows.setdefault(where, []).append(((lo[1] if lo and lo[0] is None else None), (hi[1] if hi and hi[0] is None else None), kwi))
+            # which argument-list lengths reach this slice: every test of args.len() against a constant on the way
+            admitted = []
+            for L in range(0, 24):
+                okL = True
+                for c in cons:
+                    e = c[3]
+                    if e[0] == "call" and e[1].endswith("<impl [T]>::is_empty") and "args" in c[0]:
+                        okL = okL and ((L == 0) in c[1])
+                    elif e[0] == "bin" and e[1] in ("Lt", "Le", "Gt", "Ge", "Eq", "Ne"):
+                        sides = [mir.strip_copies(e[2]), mir.strip_copies(e[3])]
+                        isl = [x[0] == "call" and x[1].endswith("<impl [T]>::len") and "args" in expr_str(x) for x in sides]
+                        k = [ceval(x) for x in sides]
+                        if isl[0] and k[1] is not None:
+                            a, bb_ = L, k[1]
+                        elif isl[1] and k[0] is not None:
+                            a, bb_ = k[0], L
+                        else:
+                            continue
+                        v = {"Lt": a < bb_, "Le": a <= bb_, "Gt": a > bb_, "Ge": a >= bb_, "Eq": a == bb_, "Ne": a != bb_}[e[1]]
+                        okL = okL and (v in c[1])
+                if okL:
+                    admitted.append(L)
+            rows.setdefault(where, []).append(((lo[1] if lo and lo[0] is None else None), (hi[1] if hi and hi[0] is None else None), kwi, admitted))
     fen = [r for r in rows.get("fen-slice", []) + rows.get(None, []) if r[1] is not None]
     ctx.check(any(r[0] == 1 and r[1] == 7 for r in fen), "parse_position:fen-is-args[1..7]", "the FEN is tokens 1..7 (six fields)", b.where(0), bad_what="FEN slice(s): %s" % [(r[0], r[1]) for r in fen])
     sp = rows.get("StartPos", [])
     ctx.check(any(r[0] == 2 and r[1] is None and (1, "moves") in r[2] for r in sp), "parse_position:startpos-moves-from-2", "startpos: moves are tokens 2.. iff token 1 is `moves`", b.where(0), bad_what="startpos move slice(s): %s" % sp)
     fe = rows.get("Fen", [])
-    ctx.check(any(r[0] == 8 and r[1] is None and (7, "moves") in r[2] for r in fe), "parse_position:fen-moves-from-8", "fen: moves are tokens 8.. iff token 7 is `moves`", b.where(0), bad_what="fen move slice(s): %s" % fe)
+    ctx.check(any(r[0] == 8 and r[1] is None and (7, "moves") in r[2] for r in fe), "parse_position:fen-moves-from-8", "fen: moves are tokens 8.. iff token 7 is `moves`", b.where(0), bad_what="fen move slice(s): %s" % [r[:3] for r in fe])
+    # ... for every number of moves: a length test in front of the slice may only exclude lists without a move
+    for name, rs, start in (("startpos", sp, 2), ("fen", fe, 8)):
+        rr = [r for r in rs if r[0] == start and r[1] is None]
+        lost = sorted(L for L in range(start + 1, 24) if rr and not any(L in r[3] for r in rr))
+        ctx.check(bool(rr) and not lost, "parse_position:%s-every-move-count" % name, "%s: the move slice is taken for every list with at least one move (lengths %d.. reach it)" % (name, start + 1), b.where(0),
+                  bad_what="%s: a `moves` list is silently dropped when the command has %s tokens after `position` (a length test in front of the slice excludes it): the board then misses those moves" % (name, lost[:4]))
     # kind selection by keyword
     kinds = {}
     for bi, i, s in b.stmts():
@@ -265,7 +293,7 @@ def rule_dispatch(ctx):
 RULES = [("fresh", rule_fresh), ("commit", rule_commit), ("apply", rule_apply), ("suffix", rule_suffix), ("tokens", rule_tokens), ("dispatch", rule_dispatch)]
 # the position command is built from the FEN loader, the legality filter and make_move: their clauses are decided here too
 RULES += engine.premise_rules("c07", ["setters", "letters", "fields", "castle-letters", "side-ep", "history", "build"])
-RULES += engine.premise_rules("c01", ["filter", "probe"])
+RULES += engine.premise_rules("c01", ["filter", "probe", "square-arith", "capture-src"])
 RULES += engine.premise_rules("c03", ["revocation-table", "rights-monotone", "clock", "ep", "fullmove", "placement"])
 
 
